@@ -143,7 +143,7 @@ def main():
     silent = []
     for cres in thorough["canaries"]:
         print("canary %-40s %s%s" % (cres["name"], cres["status"], (" -> " + cres.get("reported", "")) if cres["status"] == "fired" else (" (" + str(cres.get("reason", cres.get("detail", "")))[:200] + ")")))
-        if cres["status"] == "silent":
+        if cres["status"] in ("silent", "mutant-does-not-compile"):
             silent.append(cres["name"])
     try:
         ev = json.load(open(evp))
